@@ -112,7 +112,7 @@ Lemma fin_info_loop fuel : forall first acc d, (length (d_q d) < fuel)%nat -> fi
 Proof.
   induction fuel as [|f IH]; intros first acc d F; [lia|]. cbn [info_loop]. unfold bind at 1.
   unfold m_recv, recv. destruct (d_q d) as [|r q] eqn:Q; [exact I|]. cbn [fst].
-  set (d' := {| d_mlen := d_mlen d; d_pad := d_pad d; d_q := q; d_per := d_per d; d_reqs := d_reqs d; d_counter := d_counter d |}).
+  set (d' := {| d_mlen := d_mlen d; d_wlen := d_wlen d; d_pad := d_pad d; d_q := q; d_per := d_per d; d_reqs := d_reqs d; d_counter := d_counter d |}).
   set (rr := pad_to (d_mlen d) (d_pad d) r).
   assert (Q' : (length (d_q d') < f)%nat) by (subst d'; cbn [d_q length] in *; lia).
   repeat (unfold bind at 1; unfold lift at 1;
@@ -195,8 +195,8 @@ Proof. unfold pad_to. rewrite firstn_length_le; [reflexivity|]. rewrite app_leng
 
 (* one exchange with a device whose next reply is [rp] *)
 Definition after (d : dev) (req : list N) (per' : list (list (list N))) : dev :=
-  {| d_mlen := d_mlen d; d_pad := d_pad d; d_q := []; d_per := per';
-     d_reqs := d_reqs d ++ [pad_to (d_mlen d) 0 req]; d_counter := next_counter (d_counter d) |}.
+  {| d_mlen := d_mlen d; d_wlen := d_wlen d; d_pad := d_pad d; d_q := []; d_per := per';
+     d_reqs := d_reqs d ++ [pad_to (d_wlen d) 0 req]; d_counter := next_counter (d_counter d) |}.
 
 Lemma exchange_reply d req k rp per' : (length (d_q d) <= 10)%nat -> d_per d = [rp] :: per' ->
   exchange req k d =
@@ -205,7 +205,7 @@ Lemma exchange_reply d req k rp per' : (length (d_q d) <= 10)%nat -> d_per d = [
   | Err e => (Err e, after d req per') | Panic s => (Panic s, after d req per') | Hang => (Hang, after d req per')
   end.
 Proof.
-  intros Q P. unfold exchange, bind, m_send, m_recv, send, recv, lift, ret. cbn [fst snd d_q d_mlen d_pad d_per d_reqs d_counter].
+  intros Q P. unfold exchange, bind, m_send, m_recv, send, recv, lift, ret. cbn [fst snd d_q d_mlen d_wlen d_pad d_per d_reqs d_counter].
   rewrite P, (drain_short 10 _ Q). cbn [hd tl app]. unfold after.
   destruct (triage k (pad_to (d_mlen d) (d_pad d) rp)); reflexivity.
 Qed.
@@ -236,7 +236,7 @@ Qed.
 (* every exchange carries the current counter in its request and advances it *)
 Lemma exchange_counter req k d : d_counter (snd (exchange req k d)) = next_counter (d_counter d).
 Proof.
-  unfold exchange, bind, m_send, m_recv, send, recv, lift, ret. cbn [fst snd d_q d_mlen d_pad d_per d_reqs d_counter].
+  unfold exchange, bind, m_send, m_recv, send, recv, lift, ret. cbn [fst snd d_q d_mlen d_wlen d_pad d_per d_reqs d_counter].
   destruct (drain 10 (d_q d) ++ hd [] (d_per d)) as [|r q]; cbn [snd d_counter]; [reflexivity|].
   destruct (triage k _); reflexivity.
 Qed.
